@@ -40,12 +40,13 @@ check("C01", "rocq-core", "proof",
       "put, tombstone if a delete; ids never written are absent), and a read returns the winner's stamp and BYTES if it is a put and nothing "
       "if it is a delete (payload invariant: every store write of every handler under every storage outcome copies a request's bytes; "
       "fetched documents copy the peer's). The pre-fix acceptance rule is refuted (lagging node serves a deleted "
-      "document). Model tied to the code by 2-4 real in-process nodes (hx-cluster): named schedules + random schedules, compared after every "
+      "document). The task distributor (Distributor.v): every batch is addressed to the whole live map of its tick, which is a function of the "
+      "membership changes alone (dropping a peer after a failed batch is refuted). Model tied to the code by 2-4 real in-process nodes (hx-cluster): named schedules + random schedules, compared after every "
       "event, with the convergence oracle (ids, bytes, stamps) at quiescence; includes exchanges racing with writes on the polled node and "
       "exchanges whose storage writes fail.",
       "Trusted: Coq kernel, models Orswot/Actor/Cluster.v, extraction + driver, the Rust executor and the in-process transport / wall-clock hooks. "
       "Events of the trace are atomic handler executions (a node restarting in the middle of a request is C07's theorem, not part of this "
-      "trace); storage calls inside the trace succeed (failures: C02). Chitchat, timers and the distributor's batching loop are not modelled.")
+      "trace); storage calls inside the trace succeed (failures: C02). Chitchat, timers and the poller's scheduling are not modelled.")
 check("C02", "rocq-core", "proof",
       "Theorems in coq/core/Properties/C02.v over the model Actor.v of the keyspace actor handlers: Agree (for every id the set's view — live at t / "
       "tombstone at t / nothing — equals the store's metadata) together with the set invariant is preserved by every request (Set, MultiSet, "
@@ -93,7 +94,9 @@ check("C06", "rocq-core", "proof",
       "failure stating (acknowledged, selected) with acknowledged < selected; on Ok at least `required level` distinct other nodes acknowledged "
       "(given the selection facts proved in C15); whatever the result, the mutation or a newer one for the same id is in the STORE of the issuer "
       "and of every acknowledging replica, and stays there through every later event; after a failure the mutation reaches any node with the next "
-      "batch carrying it. Tied to lib.rs/client.rs/consistency_impl.rs/distributor.rs by the real ReplicatedStoreHandle with the real selector "
+      "batch carrying it; the task distributor's loop (Distributor.v): a registered mutation leaves with the next tick's batch addressed to every "
+      "live member, the batches partition the registered mutations in order (nothing lost, duplicated, merged or reordered), every reachable "
+      "live member applies the whole batch. Tied to lib.rs/client.rs/consistency_impl.rs/distributor.rs by the real ReplicatedStoreHandle with the real selector "
       "and the real task distributor on 2-4 in-process nodes: all levels x all operation kinds x all subsets of unreachable replicas, links "
       "restored, batching interval elapsed (hx-cluster focus=c06), and random distributor schedules.",
       "Trusted: as C01. Selection properties are premises here (C15). One data centre in the executor's clusters. The 2 s selection cache and RPC "
@@ -105,7 +108,7 @@ check("C07", "rocq-core", "proof",
       "survive); for a stop in the middle of a request (after the storage write, any outcome) the restarted node shows what the store holds; "
       "the restarted node satisfies the hypotheses of the convergence theorems. Tied to group.rs/actor.rs by restarts and mid-request kills of "
       "the real KeyspaceGroup on the same store (hx-actor) and by the same histories on a SQLite file and an LMDB directory with the database "
-      "really closed and reopened at every restart (hx-restart).",
+      "really closed and reopened at every restart, incl. histories across a decimal-digit edge of the seconds field (hx-restart).",
       "Trusted: as C02. Durability of an acknowledged write (SQLite WAL/synchronous=normal, LMDB commit, OS) is outside the model: a returned "
       "write is assumed to be in the store; persistent backends' reopen behaviour is C17's subject.")
 check("C08", "rocq-core", "proof",
@@ -144,7 +147,7 @@ check("C12", "rocq-frame", "proof",
       "and delivers the value sent; one exchange returns exactly the handler's reply or its Status (code, message); every single-bit (indeed "
       "single-byte) corruption, every mismatched trailer and every buffer shorter than size_of::<Archived<T>>()+4 is refused, never cast out of "
       "bounds, and runs no handler. Tied to rkyv_tooling/view.rs, mod.rs and the request/reply path by differential execution of six message "
-      "types (exhaustive flips/truncations per frame) and in-process RPC exchanges (hx-frame, release and debug builds).",
+      "types (exhaustive flips/truncations per frame; every value also read through a clone of its view) and in-process RPC exchanges (hx-frame, release and debug builds).",
       "Trusted: Coq kernel, the hand-written model Crc.v/Frame.v, ExtrOcamlBasic plus the OCaml driver, the Rust executor. rkyv's serializer "
       "and view are a hypothesis (round-trip law), validated by execution only; crc32fast is modelled as bit-serial CRC-32; HTTP/2 framing is "
       "replaced by the in-process transport, which re-creates body chunking (pieces of 1/3/16/1000 bytes without a length hint) so that "
@@ -182,13 +185,13 @@ check("C16", "rocq-membership", "proof",
       "class a witness refutes it (D9, known finding, printed as KNOWN-FINDING). Model tied to watch_membership_changes, the watch channel and "
       "WatchStream by differential execution: bounded-exhaustive over schedules, then random (hx-membership).",
       "Trusted: Coq kernel, hand-written Membership.v, ExtrOcamlBasic extraction with a vm_compute cross-check, the OCaml driver, the Rust "
-      "executor (schedule control by yielding on a current-thread runtime). The consumers' apply loop is re-implemented in the executor for the subscriber schedules and pinned (with its left-before-joined order); the real task distributor is run on every published change by the `dist` cases and the addresses its batch reaches are compared. "
+      "executor (schedule control by yielding on a current-thread runtime). The consumers' apply loop is re-implemented in the executor for the subscriber schedules and pinned (with its left-before-joined order); the real task distributor is run on every published change by the `dist` cases (and with one live peer unreachable for exactly one batch by the `distf` cases) and the addresses its batch reaches are compared. "
       "D9 (late subscriber / coalesced deltas on the watch channel) is a known finding, not repaired.")
 check("C17", "rocq-storage", "translation_validation",
       "Differential of MemStore, SQLite (memory and file) and LMDB against a proved-about reference model. After every call of generated "
       "contract-allowed call sequences all observers (get, multi_get, iter_metadata, keyspace list) are compared with the extracted Coq reference "
       "and by an independent oracle. Sequences are bounded-exhaustive for short ones and random beyond; close+reopen after any prefix for the "
-      "persistent backends. The theorems in coq/storage/Properties/C17.v hold for all states, all call sequences and any payload type: frame rule "
+      "persistent backends; for SQLite also bulk writes with one row refused by the engine (nothing of the batch stored, the handle keeps serving). The theorems in coq/storage/Properties/C17.v hold for all states, all call sequences and any payload type: frame rule "
       "(keyspaces never affect one another), get-after-put, last write wins, metadata = last write per id, reopen = identity, observations "
       "determined by per-id last write, allowed purge keeps documents. They are about the reference only; agreement of the backends is established "
       "on the cases run, not proved.",
@@ -200,8 +203,10 @@ check("C18", "rocq-keyspace", "proof",
       "Theorems in coq/keyspace/Properties/C18.v over the interleaving model Keyspace.v of get_or_create_keyspace/add_state, for any number of "
       "tasks and every schedule (invariant of the transition system): all returned tasks hold the instance in the map, the entry never changes, "
       "every acknowledged mutation is in the set any later lookup returns, the published update counter is the live instance's, the loser's "
-      "spawned actor is unreachable; legacy overwriting insert refuted. Model tied to group.rs by hand-polled futures of the real code in every "
-      "poll order for k<=3 (k=4 in thorough), random schedules k<=6, plus an oracle-only multi-thread stress (hx-keyspace).",
+      "spawned actor is unreachable; the same with ticks of the group's purge task anywhere in the trace (KeyspaceLife.v); legacy overwriting "
+      "insert and a reload-after-failed-purge variant refuted. Model tied to group.rs by hand-polled futures of the real code in every "
+      "poll order for k<=3 (k=4 in thorough), random schedules k<=6, plus oracle-only legs: a barrier-released multi-thread stress and purge "
+      "ticks (healthy/failing store) between two uses of a keyspace (hx-keyspace).",
       "Trusted: Coq kernel, hand-written model Keyspace.v, atomicity of parking_lot RwLock sections and one-message-at-a-time puppet actors, "
       "flume/oneshot delivery, ExtrOcamlBasic + OCaml driver, the Rust executor; correspondence is poll-granular on a current-thread runtime "
       "(theorems cover the finer multi-thread interleavings).",
